@@ -14,4 +14,5 @@ import OH.Props.C18
 #print axioms OH.Props.C18.inventory_matches
 #print axioms OH.Props.C18.cells_are_the_statics
 #print axioms OH.Props.C18.no_other_shared_state
+#print axioms OH.Props.C18.one_hash_container
 #print axioms OH.Props.C18.api_cells_in_scope
